@@ -13,6 +13,10 @@ use crate::{
     text::SourceRange,
 };
 
+/// Maximum nesting of expressions, blocks and doc types. The grammar is parsed by recursive
+/// descent, so this bounds the stack use; the reference Lua implementations stop at 200 levels.
+const MAX_NESTING_LEVEL: usize = 256;
+
 #[allow(unused)]
 pub struct LuaParser<'a> {
     text: &'a str,
@@ -26,6 +30,7 @@ pub struct LuaParser<'a> {
     ternary_depth: usize,
     paren_depth: usize,
     ternary_paren_depth: usize,
+    nesting_level: usize,
 }
 
 impl MarkerEventContainer for LuaParser<'_> {
@@ -67,6 +72,7 @@ impl<'a> LuaParser<'a> {
             ternary_depth: 0,
             paren_depth: 0,
             ternary_paren_depth: 0,
+            nesting_level: 0,
         };
 
         parse_chunk(&mut parser);
@@ -210,6 +216,20 @@ impl<'a> LuaParser<'a> {
 
     pub fn inside_ternary_branch(&self) -> bool {
         self.ternary_depth > 0
+    }
+
+    /// Enters one level of recursive descent; returns false when the input is nested too deeply
+    /// to be parsed on a bounded stack (the caller reports a syntax error and does not recurse).
+    pub fn enter_level(&mut self) -> bool {
+        if self.nesting_level >= MAX_NESTING_LEVEL {
+            return false;
+        }
+        self.nesting_level += 1;
+        true
+    }
+
+    pub fn leave_level(&mut self) {
+        self.nesting_level = self.nesting_level.saturating_sub(1);
     }
 
     pub fn enter_paren(&mut self) {
@@ -444,6 +464,7 @@ mod tests {
             ternary_depth: 0,
             paren_depth: 0,
             ternary_paren_depth: 0,
+            nesting_level: 0,
         };
         parser.init();
 
